@@ -205,7 +205,7 @@ theorem osuCanon_zero_one (sk : Skills S) (objs : List OsuObj) (g : OsuGrad S)
 /-- State reached by the skipping part of `nth` (before its final `next`). -/
 theorem osuNth_pre (sk : Skills S) (objs : List OsuObj) (g : OsuGrad S) (i k : Nat)
     (hc : OsuCanon sk objs g i) :
-    let take := min k (objs.length - i - 1)
+    let take := min k (objs.length - i)
     let p := if g.idx = 0 ∧ take > 0 then (({ g with idx := g.idx + 1 } : OsuGrad S), take - 1) else (g, take)
     OsuCanon sk objs (osuNthLoop sk objs.tail p.2 (g.idx - 1) p.1) (i + take) := by
   intro take p
@@ -214,14 +214,14 @@ theorem osuNth_pre (sk : Skills S) (objs : List OsuObj) (g : OsuGrad S) (i k : N
   · have hi0 : i = 0 := by omega
     subst hi0
     have hn : 0 < objs.length := by
-      have : take ≤ objs.length - 0 - 1 := Nat.min_le_right _ _
+      have : take ≤ objs.length - 0 := Nat.min_le_right _ _
       omega
     have hp : p = (({ g with idx := g.idx + 1 } : OsuGrad S), take - 1) := by
       simp only [p, h0, and_self, ↓reduceIte]
     rw [hp]
     have h1 := osuNthLoop_spec sk objs (take - 1) _ 1 (osuCanon_zero_one sk objs g hc hn) (Nat.le_refl _)
     have e : 1 + min (take - 1) (objs.length - 1) = 0 + take := by
-      have : take ≤ objs.length - 0 - 1 := Nat.min_le_right _ _
+      have : take ≤ objs.length - 0 := Nat.min_le_right _ _
       omega
     rw [e] at h1
     simpa [h0.1] using h1
@@ -231,7 +231,7 @@ theorem osuNth_pre (sk : Skills S) (objs : List OsuObj) (g : OsuGrad S) (i k : N
     by_cases hi : 1 ≤ i
     · have h1 := osuNthLoop_spec sk objs take g i hc hi
       have e : i + min take (objs.length - i) = i + take := by
-        have : take ≤ objs.length - i - 1 := Nat.min_le_right _ _
+        have : take ≤ objs.length - i := Nat.min_le_right _ _
         omega
       rw [e] at h1
       simpa [hidx] using h1
@@ -243,19 +243,25 @@ theorem osuNth_pre (sk : Skills S) (objs : List OsuObj) (g : OsuGrad S) (i k : N
       simp only [ht, osuNthLoop]
       simpa using hc
 
+/-- `nth k` from the canonical state after `i` values (as fixed): with more than `k` values
+remaining it returns the value number `i + k + 1`; otherwise it consumes everything that remains and
+returns `None`, leaving the exhausted state. -/
 theorem osuNth_spec (sk : Skills S) (objs : List OsuObj) (g : OsuGrad S) (i k : Nat)
     (hc : OsuCanon sk objs g i) :
-    (i < objs.length →
-      let j := i + min k (objs.length - i - 1) + 1
-      (osuNth sk objs g k).1 = .some (osuValue sk objs j) ∧ OsuCanon sk objs (osuNth sk objs g k).2 j) ∧
-    (i = objs.length → (osuNth sk objs g k).1 = .none ∧ OsuCanon sk objs (osuNth sk objs g k).2 i) := by
+    (i + k < objs.length →
+      (osuNth sk objs g k).1 = .some (osuValue sk objs (i + k + 1)) ∧
+        OsuCanon sk objs (osuNth sk objs g k).2 (i + k + 1)) ∧
+    (objs.length ≤ i + k → (osuNth sk objs g k).1 = .none ∧
+        OsuCanon sk objs (osuNth sk objs g k).2 objs.length) := by
   have hlen := osuLen_spec sk objs g i hc
   have hpre := osuNth_pre sk objs g i k hc
+  have hle := hc.le
   simp only at hpre
   constructor
-  · intro hlt j
-    have hm : i + min k (objs.length - i - 1) < objs.length := by omega
-    have hn := (osuNext_spec sk objs _ _ hpre).1 hm
+  · intro hlt
+    have e : i + min k (objs.length - i) = i + k := by omega
+    rw [e] at hpre
+    have hn := (osuNext_spec sk objs _ _ hpre).1 hlt
     unfold osuNth
     simp only [hlen]
     split
@@ -268,16 +274,14 @@ theorem osuNth_spec (sk : Skills S) (objs : List OsuObj) (g : OsuGrad S) (i k : 
     · rename_i g3 heq
       rw [heq] at hn
       simp at hn
-  · intro heq
-    have hm : i + min k (objs.length - i - 1) = objs.length := by omega
-    have hn := (osuNext_spec sk objs _ _ hpre).2 hm
+  · intro hge
+    have e : i + min k (objs.length - i) = objs.length := by omega
+    rw [e] at hpre
+    have hn := (osuNext_spec sk objs _ _ hpre).2 rfl
     unfold osuNth
     simp only [hlen]
     rw [hn]
-    refine ⟨rfl, ?_⟩
-    have e : i + min k (objs.length - i - 1) = i := by omega
-    rw [e] at hpre
-    exact hpre
+    exact ⟨rfl, hpre⟩
 
 end Rosu.Gradual
 
